@@ -395,6 +395,12 @@ func (g *TxGen) GenRegistry(t *rapid.T) *RegTx {
 		}
 		rt := *w.Runtime
 		rt.Executor.RoundTimeout = int64(rapid.IntRange(2, 6).Draw(t, "newRoundTimeout"))
+		toRuntimeGov := false
+		if rt.GovernanceModel == registry.GovernanceEntity && rapid.IntRange(0, 2).Draw(t, "toRuntimeGov") == 0 {
+			// hand the runtime over to runtime governance (same owning entity): its stake claim moves to the runtime's account
+			rt.GovernanceModel = registry.GovernanceRuntime
+			toRuntimeGov = true
+		}
 		owner := w.Entities[0]
 		signer := owner
 		unauthorized := ""
@@ -404,7 +410,15 @@ func (g *TxGen) GenRegistry(t *rapid.T) *RegTx {
 		}
 		d := g.sign(signer.Signer, signer.Address(), registry.MethodRegisterRuntime, &rt, signer.Name)
 		d.Note = "update runtime"
+		if toRuntimeGov {
+			d.Note = "update runtime to-runtime-governance"
+		}
 		d.Mutated = unauthorized
-		return &RegTx{TxDesc: d, Unauthorized: unauthorized}
+		res := &RegTx{TxDesc: d, Unauthorized: unauthorized}
+		if unauthorized == "" {
+			nrt := rt
+			res.OnSuccess = func() { w.Runtime = &nrt }
+		}
+		return res
 	}
 }
